@@ -3,6 +3,7 @@ from __future__ import annotations
 
 import copy
 import json
+import time
 from fractions import Fraction
 
 from .. import core
@@ -23,7 +24,9 @@ TRUSTED = [
 ]
 
 TOL = Fraction(1, 10 ** 9)
-RATE_MODELS = ["ill_uniform", "ill_rect", "ill_ellip", "load_image", "stripe", "load_charge", "dark_current"]
+RATE_MODELS = ["ill_uniform", "ill_rect", "ill_ellip", "load_image", "stripe", "load_charge", "dark_current",
+               "dark_current_rule07"]
+CHARGE_KINDS = ["load_charge", "dark_current", "dark_current_rule07"]
 PHOTON_KINDS = ["ill_uniform", "ill_rect", "ill_ellip", "load_image", "stripe"]
 
 
@@ -54,16 +57,25 @@ def is_small_dyadic(f: Fraction) -> bool:
 # ------------------------------------------------------------------------------------------ generators
 
 
-def gen_det(r, need_even=False, small=False):
+def gen_det(r, need_even=False, small=False, dy=True):
     hi = 4 if small else 8
     rows, cols = r.randrange(1, hi + 1), r.randrange(1, hi + 1)
     if r.random() < 0.5:  # bias towards small detectors (cost), the full 1..8 x 1..8 range stays reachable
         rows, cols = min(rows, r.randrange(1, 4)), min(cols, r.randrange(1, 5))
     if need_even:
         rows, cols = rows + rows % 2, cols + cols % 2
-    return dict(kind=r.choice(["ccd", "ccd", "cmos"]), rows=rows, cols=cols, pv=H(r.choice([10.0, 15.0, 18.0])),
-                ph=H(r.choice([10.0, 12.0])), temperature=H(r.choice([150.0, 200.0, 250.0, 300.0])),
-                qe=H(r.choice([1.0, 0.5, 0.75])))
+    d = dict(kind=r.choice(["ccd", "ccd", "cmos"]), rows=rows, cols=cols, pv=H(r.choice([10.0, 15.0, 18.0])),
+             ph=H(r.choice([10.0, 12.0])), temperature=H(r.choice([150.0, 200.0, 250.0, 300.0])),
+             qe=H(r.choice([1.0, 0.5, 0.75])))
+    # read-out chain (enters load_image(convert_to_photons=True) through system_gain); powers of two in the exact stream
+    if dy:
+        # (magnitudes kept moderate so that every float intermediate of a 12-readout exposure stays below 53 bits)
+        d.update(adc_bits=r.choice([8, 10, 12]), ctv=H(2.0 ** -r.choice([8, 12])),
+                 preamp=H(r.choice([1.0, 2.0, 0.5])), vrange=[H(0.0), H(r.choice([4.0, 8.0, 16.0]))])
+    else:
+        d.update(adc_bits=r.choice([8, 12, 16]), ctv=H(r.choice([1.0e-6, 3.0e-6, 5.0e-5])),
+                 preamp=H(r.choice([1.0, 0.8, 100.0])), vrange=[H(0.0), H(r.choice([5.0, 10.0, 3.3]))])
+    return d
 
 
 def gen_level(r, dy):
@@ -71,7 +83,7 @@ def gen_level(r, dy):
 
 
 def gen_ts(r, dy):
-    return r.choice([1.0, 1.0, 0.5, 2.0, 0.25, 4.0, 0.125]) if dy else r.choice([1.0, 0.001, 0.1, 3.0, 60.0, 1e-6])
+    return r.choice([0.5, 2.0, 0.25, 4.0, 0.125, 8.0]) if dy else r.choice([0.001, 0.1, 3.0, 60.0, 1e-6])
 
 
 def gen_data(r, n, dy, hi=32):
@@ -81,28 +93,73 @@ def gen_data(r, n, dy, hi=32):
 
 
 DC_TARGETS = [3.0, 2.0, 1.0, 0.5, 5.0, 8.0, 12.0, 0.75, 6.0, 10.0, 4.0, 1.5, 7.0, 0.25, 16.0, 9.0]
+ALIGNS = ["center", "top_left", "top_right", "bottom_left", "bottom_right"]
+
+# Every option / branch of a time-integrating model that changes how the time step reaches the bucket (or could
+# plausibly do so after a rewrite).  Each variant is exercised by direct calls on EVERY run (call_items) and drawn
+# at random inside exposures.  The option names are checked against the signatures in the source by the
+# translator (translator/c17.py: a parameter that is not classified there fails closed).
+VARIANTS = {
+    "ill_uniform": [dict(ts=False), dict(ts=True)],
+    "ill_rect": [dict(ts=False, center=False), dict(ts=True, center=True)],
+    "ill_ellip": [dict(ts=True, center=False), dict(ts=False, center=True)],
+    "load_image": [dict(), dict(mult=True), dict(ts=True), dict(mult=True, ts=True, fmt="fits"),
+                   dict(convert=True), dict(convert=True, mult=True), dict(convert=True, ts=True),
+                   dict(convert=True, mult=True, ts=True, place="position"),
+                   dict(place="position", ts=True), dict(place="shape", mult=True)]
+                  + [dict(place=a, ts=(i % 2 == 0), convert=(i % 3 == 0)) for i, a in enumerate(ALIGNS)],
+    "stripe": [dict(ts=False, angle=0), dict(ts=True, angle=0), dict(ts=True, angle=90), dict(ts=False, angle=30)],
+    "load_charge": [dict(), dict(ts=True), dict(place="position", ts=True), dict(place="shape")]
+                   + [dict(place=a, ts=(i % 2 == 1)) for i, a in enumerate(ALIGNS)],
+    "dark_current": [dict(), dict(band_gap=True)],
+    "dark_current_rule07": [dict(cutoff=False), dict(cutoff=True)],
+}
 
 
-def gen_model(r, kind, det, dy):
+def gen_placement(r, m, det, place, dy):
+    """File of another shape than the detector and/or position / align (the placed image is read back from the
+    implementation's own load_cropped_and_aligned_image by the driver)."""
+    rows, cols = det["rows"], det["cols"]
+    if place is None:
+        return
+    fr_, fc_ = r.randrange(1, rows + 3), r.randrange(1, cols + 3)
+    m["data_shape"] = [fr_, fc_]
+    m["data"] = gen_data(r, fr_ * fc_, dy)
+    if place == "position":
+        # any offset that leaves an overlap in both directions (negative offsets crop the file)
+        m["position"] = [r.randrange(-(fr_ - 1), rows), r.randrange(-(fc_ - 1), cols)]
+    elif place in ALIGNS:
+        m["align"] = place
+
+
+def gen_model(r, kind, det, dy, variant=None):
     rows, cols = det["rows"], det["cols"]
     n = rows * cols
+    v = dict(r.choice(VARIANTS[kind])) if (variant is None and kind in VARIANTS) else dict(variant or {})
     m = {}
     if kind == "ill_uniform":
         m = dict(m="illumination", level=H(gen_level(r, dy)), option="uniform")
     elif kind in ("ill_rect", "ill_ellip"):
         m = dict(m="illumination", level=H(gen_level(r, dy)), option="rectangular" if kind == "ill_rect" else "elliptic",
                  object_size=[r.randrange(1, rows + 2), r.randrange(1, cols + 2)])
-        if r.random() < 0.5:
+        if v.get("center", r.random() < 0.5):
             m["object_center"] = [r.randrange(0, rows + 1), r.randrange(0, cols + 1)]
     elif kind == "load_image":
-        m = dict(m="load_image", data=gen_data(r, n, dy), fmt=r.choice(["npy", "npy", "fits"]))
-        if r.random() < 0.6:
+        m = dict(m="load_image", data=gen_data(r, n, dy), fmt=v.get("fmt") or r.choice(["npy", "npy", "fits"]))
+        gen_placement(r, m, det, v.get("place"), dy)
+        if v.get("mult"):
             m["multiplier"] = H(r.choice([2.0, 0.5, 3.0, 1.5]) if dy else round(r.uniform(0.1, 5), 3))
+        if v.get("convert"):
+            m["convert"] = True
+            m["bit_resolution"] = r.choice([8, 10, 12, 6])
     elif kind == "stripe":
         per = r.choice([p for p in (2, 4, 6, 8) if p // 2 <= max(rows, cols)])
         m = dict(m="stripe_pattern", level=H(gen_level(r, dy)), period=per, startwith=r.randrange(2))
+        if v.get("angle"):
+            m["angle"] = int(v["angle"])
     elif kind == "load_charge":
         m = dict(m="load_charge", data=gen_data(r, n, dy), fmt="npy")
+        gen_placement(r, m, det, v.get("place"), dy)
     elif kind == "dark_current":
         if dy:
             t = DC_TARGETS[:]
@@ -110,6 +167,14 @@ def gen_model(r, kind, det, dy):
             m = dict(m="dark_current", targets=[H(x) for x in t])
         else:
             m = dict(m="dark_current", fom=H(round(r.uniform(0.01, 50.0), 4)))
+        if v.get("band_gap"):
+            m["band_gap"] = H(r.choice([1.12, 1.0, 1.25]))
+            m["band_gap_rt"] = H(r.choice([1.12, 1.1, 1.2]))
+    elif kind == "dark_current_rule07":
+        m = dict(m="dark_current_rule07")
+        if v.get("cutoff"):
+            # moderate rates only (the rate spans 20 orders of magnitude over the accepted cut-off range)
+            m["cutoff"] = H(r.choice([1.7, 1.8, 2.0, 2.2]))
     elif kind == "simple_conversion":
         q = r.choice([None, 0.5, 0.75, 0.25, 1.0, 0.625]) if dy else r.choice([None, 0.9, 0.33, 0.618])
         m = dict(m="simple_conversion", qe=None if q is None else H(q))
@@ -118,7 +183,8 @@ def gen_model(r, kind, det, dy):
         m = dict(m="qe_map", data=[H(v) for v in vals], fmt="npy")
     else:
         raise ValueError(kind)
-    if kind in ("ill_uniform", "ill_rect", "ill_ellip", "load_image", "stripe", "load_charge") and r.random() < 0.7:
+    if kind in ("ill_uniform", "ill_rect", "ill_ellip", "load_image", "stripe", "load_charge") and \
+            v.get("ts", r.random() < 0.7):
         m["time_scale"] = H(gen_ts(r, dy))
     return m
 
@@ -128,12 +194,12 @@ def gen_pipeline(r, dy, kinds=None):
     if kinds is None:
         nph = r.choice([0, 1, 1, 2, 2, 3])
         kinds = [r.choice(PHOTON_KINDS) for _ in range(nph)]
-        kinds += [k for k in ("load_charge", "dark_current") if r.random() < 0.45]
+        kinds += [k for k in CHARGE_KINDS if r.random() < (0.45 if k != "dark_current_rule07" else 0.2)]
         if not kinds:
             kinds = [r.choice(RATE_MODELS)]
-    det = gen_det(r, need_even="stripe" in kinds, small=not dy)   # non-dyadic rationals are long: keep them few
+    det = gen_det(r, need_even="stripe" in kinds, small=not dy, dy=dy)   # non-dyadic rationals are long: keep them few
     ph = [gen_model(r, k, det, dy) for k in kinds if k in PHOTON_KINDS]
-    gen = [gen_model(r, k, det, dy) for k in kinds if k in ("load_charge", "dark_current")]
+    gen = [gen_model(r, k, det, dy) for k in kinds if k in CHARGE_KINDS]
     if ph:
         gen.append(gen_model(r, r.choice(["simple_conversion", "simple_conversion", "qe_map"]), det, dy))
         if r.random() < 0.15:
@@ -185,23 +251,52 @@ def exposure_payload(det, models, start, times, nd):
 # ------------------------------------------------------------------------------------------ rates (exact rationals)
 
 
-def model_ops(det, m, aux):
-    """Per pixel: the Coq op of this configured model (its rate at that pixel as an exact rational)."""
+def pow2(f: Fraction) -> bool:
+    n, d = abs(f.numerator), f.denominator
+    return n > 0 and n & (n - 1) == 0 and d & (d - 1) == 0
+
+
+def model_rates(det, m, aux):
+    """Per pixel: the rate of this configured rate model (exact rational), i.e. its bucket increment per unit time
+    step.  Closed form from the model's documented arguments; only 0/1 masks, placed (cropped/aligned) files,
+    rotated stripe patterns, system_gain and the dark-current rates are read back from the implementation."""
     n = det["rows"] * det["cols"]
     k = m["m"]
     ts = fr(m["time_scale"]) if "time_scale" in m else Fraction(1)
     if k in ("illumination", "stripe_pattern"):
+        if "pattern_level" in aux:
+            pat = [fr(v) for v in aux["pattern_level"]]
+            if len(pat) != n:
+                raise ValueError(f"pattern of {k} does not have the detector shape")
+            return [p / ts for p in pat]
         pat = [fr(v) for v in aux["pattern"]] if "pattern" in aux else [Fraction(1)] * n
         if any(p not in (0, 1) for p in pat) or len(pat) != n:
             raise ValueError(f"spatial pattern of {k} is not a 0/1 mask of the detector shape")
-        return [f"PhotonRate {Q(fr(m['level']) / ts * p)}" for p in pat]
-    if k == "load_image":
-        mult = fr(m["multiplier"]) if "multiplier" in m else Fraction(1)
-        return [f"PhotonRate {Q(fr(v) * mult / ts)}" for v in m["data"]]
-    if k == "load_charge":
-        return [f"ChargeRate {Q(fr(v) / ts)}" for v in m["data"]]
-    if k == "dark_current":
-        return [f"ChargeRate {Q(fr(v))}" for v in aux["rate"]]
+        return [fr(m["level"]) / ts * p for p in pat]
+    if k in ("load_image", "load_charge"):
+        img = [fr(v) for v in (aux["image"] if "image" in aux else m["data"])]
+        if len(img) != n:
+            raise ValueError(f"placed file of {k} does not have the detector shape")
+        f = Fraction(1) / ts
+        if k == "load_image":
+            f *= fr(m["multiplier"]) if "multiplier" in m else Fraction(1)
+            if m.get("convert"):
+                # documented ADU -> photon factor: 2^adc_bit_resolution / 2^bit_resolution / system_gain
+                f *= Fraction(2) ** int(aux["adc_bits"]) / Fraction(2) ** int(m["bit_resolution"]) / fr(aux["system_gain"])
+        return [v * f for v in img]
+    if k in ("dark_current", "dark_current_rule07"):
+        return [fr(v) for v in aux["rate"]]
+    raise ValueError(k)
+
+
+def model_ops(det, m, aux):
+    """Per pixel: the Coq op of this configured model (its rate at that pixel as an exact rational)."""
+    n = det["rows"] * det["cols"]
+    k = m["m"]
+    if k in ("illumination", "stripe_pattern", "load_image"):
+        return [f"PhotonRate {Q(x)}" for x in model_rates(det, m, aux)]
+    if k in ("load_charge", "dark_current", "dark_current_rule07"):
+        return [f"ChargeRate {Q(x)}" for x in model_rates(det, m, aux)]
     if k == "simple_conversion":
         q = fr(m["qe"]) if m.get("qe") is not None else fr(det.get("qe", H(1.0)))
         return [f"Convert {Q(q)}"] * n
@@ -213,8 +308,15 @@ def model_ops(det, m, aux):
 
 
 def exact_possible(models, auxs) -> bool:
+    """Float arithmetic of the implementation is exact on this configuration (else: tolerance stream)."""
     for m, a in zip(models, auxs):
-        if m["m"] == "dark_current" and not all(is_small_dyadic(fr(v)) for v in a.get("rate", [])):
+        a = a or {}
+        if m["m"] in ("dark_current", "dark_current_rule07") and \
+                not all(is_small_dyadic(fr(v)) for v in a.get("rate", [])):
+            return False
+        if m["m"] == "load_image" and m.get("convert") and not pow2(fr(a["system_gain"])):
+            return False
+        if "pattern_level" in a and not all(is_small_dyadic(fr(v)) for v in a["pattern_level"]):
             return False
     return True
 
@@ -330,12 +432,13 @@ def emit_file(lits) -> str:
 # ------------------------------------------------------------------------------------------ building the run
 
 
-def call_items(ctx, r, n_per_model, dy):
+def call_items(ctx, r, n_extra, dy):
+    """Direct calls of every rate model: EVERY variant of VARIANTS once, plus n_extra random ones per model."""
     items = []
     for kind in RATE_MODELS:
-        for _ in range(n_per_model):
-            det = gen_det(r, need_even=(kind == "stripe"), small=True)
-            m = gen_model(r, kind, det, dy)
+        for variant in list(VARIANTS[kind]) + [None] * n_extra:
+            det = gen_det(r, need_even=(kind == "stripe"), small=True, dy=dy)
+            m = gen_model(r, kind, det, dy, variant)
             n = det["rows"] * det["cols"]
             steps = []
             while len(set(steps)) < 3:
@@ -348,8 +451,8 @@ def call_items(ctx, r, n_per_model, dy):
             items.append(dict(type="inc", dy=dy, payloads=[pl], name=kind))
             items.append(dict(type="lin", dy=dy, payloads=[pl], name=kind))
     for kind in ["simple_conversion", "qe_map", "simple_collection"]:
-        for _ in range(n_per_model):
-            det = gen_det(r, small=True)
+        for _ in range(max(2, n_extra)):
+            det = gen_det(r, small=True, dy=dy)
             n = det["rows"] * det["cols"]
             m = dict(m="simple_collection") if kind == "simple_collection" else gen_model(r, kind, det, dy)
             pre = dict(photon=gen_data(r, n, dy, 16), charge=gen_data(r, n, dy, 8), pixel=gen_data(r, n, dy, 8))
@@ -372,11 +475,14 @@ def exposure_items(ctx, r, n_pair, n_scale, n_single, dy, kinds_list=()):
         end = start + (r.randrange(4, 97) / 8.0 if dy else round(r.uniform(0.5, 12.0), 3))
         if end == 0.0:
             end += 1.0
-        ta = gen_partition(r, dy, start, end, r.randrange(1, 13))
-        tb = gen_partition(r, dy, start, end, r.choice([1, 1, 2, 3, 5, 8, 12]))
-        pa, pb = exposure_payload(det, models, start, ta, True), exposure_payload(det, models, start, tb, True)
-        items += [dict(type="exp", dy=dy, payloads=[pa]), dict(type="exp", dy=dy, payloads=[pb]),
-                  dict(type="pair", dy=dy, payloads=[pa, pb])]
+        # several splittings of the same total: a random one, a second one, a fine one and the single readout
+        ta = gen_partition(r, dy, start, end, r.randrange(2, 13))
+        others = [gen_partition(r, dy, start, end, r.choice([2, 3, 5, 8])), gen_partition(r, dy, start, end, 12), [end]]
+        pa = exposure_payload(det, models, start, ta, True)
+        items.append(dict(type="exp", dy=dy, payloads=[pa]))
+        for tb in others:
+            pb = exposure_payload(det, models, start, tb, True)
+            items += [dict(type="exp", dy=dy, payloads=[pb]), dict(type="pair", dy=dy, payloads=[pa, pb])]
     for _ in range(n_scale):
         det, models = pipe()
         sa, ta = gen_times(r, dy)
@@ -438,7 +544,9 @@ def evaluate(ctx: Ctx, items, tag="c", per=30):
             if key not in index:
                 index[key] = len(payloads)
                 payloads.append(p)
+    t0 = time.time()
     results = core.run_driver(ctx, "c17", payloads, workers=8)
+    ctx.cov.setdefault("phase_secs", {})[f"driver_{tag}"] = round(time.time() - t0, 1)
     recs = []
     for it in items:
         rs = [results[index[json.dumps(p, sort_keys=True)]] for p in it["payloads"]]
@@ -476,7 +584,10 @@ def evaluate(ctx: Ctx, items, tag="c", per=30):
     if cur:
         name = f"{tag}_{k:03d}"
         files[name], chunks[name] = emit_file([x["lit"] for x in cur]), cur
+    t0 = time.time()
     res = core.coq_eval_many(ctx, files, timeout=900, par=8)
+    ctx.cov["phase_secs"][f"coq_{tag}"] = round(time.time() - t0, 1)
+    ctx.cov["phase_secs"][f"coq_files_{tag}"] = len(files)
     for name in sorted(files):
         ok, evals, se = res[name]
         if not ok or len(evals) != 2:
@@ -731,12 +842,12 @@ def run(ctx: Ctx):
     q = ctx.quick
     items = corpus_items()
     ctx.cov["corpus_cases"] = len(items)
-    items += call_items(ctx, r, 6 if q else 30, True)
-    items += call_items(ctx, ctx.rng("calls-nd"), 3 if q else 12, False)
+    items += call_items(ctx, r, 2 if q else 20, True)
+    items += call_items(ctx, ctx.rng("calls-nd"), 0 if q else 8, False)
     singles_and_full = [[k] for k in RATE_MODELS] + [list(RATE_MODELS)]
     subsets = singles_and_full if q else all_subsets()
     r.shuffle(subsets)
-    items += exposure_items(ctx, r, 50 if q else 400, 32 if q else 240, 24 if q else 200, True, subsets)
+    items += exposure_items(ctx, r, 30 if q else 300, 32 if q else 240, 24 if q else 200, True, subsets)
     items += exposure_items(ctx, ctx.rng("exp-nd"), 12 if q else 80, 8 if q else 50, 8 if q else 50, False)
     items += refused_items(r)
     recs = evaluate(ctx, items)
@@ -770,7 +881,7 @@ def search(ctx: Ctx):
     r = ctx.rng("search")
     subsets = all_subsets()
     r.shuffle(subsets)
-    items = call_items(ctx, r, 8, True)
+    items = call_items(ctx, r, 6, True)
     items += exposure_items(ctx, r, 90, 40, 30, True, subsets)
     recs = evaluate(ctx, items, tag="s")
     ctx.cov["search_cases"] = len(recs)
